@@ -421,6 +421,7 @@ struct Runner {
     if (!q.previous_interval_orphaned_requests_empty() || !q.current_interval_orphaned_requests_empty() ||
         !unodb::this_thread().previous_interval_requests_empty() || !unodb::this_thread().current_interval_requests_empty())
       fail(res, "qsbr-not-drained", "deferred requests pending after all threads exited and the last thread quiesced twice");
+    if (const std::string bad = qsbr_idle_selftest(); !bad.empty()) fail(res, "qsbr-state-inconsistent", bad);
     run_end(res);
     res.nontrivial = false;
     for (auto& e : res.realised) if (e.hook > 1) res.nontrivial = true;
